@@ -18,12 +18,15 @@ SubSeqs(s, lo, hi) == {x \in UNION {[1..k -> Range(s)] : k \in lo..hi} :
 Vals == <<"v0", "v1", "v2", "v1", "v0">>
 Worlds == UNION {
     {[peers |-> PeerSeq(n), followers |-> fo, norepin |-> nr, strat |-> "asc",
-      ms |-> [p \in Range(PeerSeq(n)) |-> IF p \in bad THEN "bad" ELSE Vals[Pos(PeerSeq(n), p)]],
+      ms |-> [p \in Range(PeerSeq(n)) |-> IF p \in hp[1] THEN "bad" ELSE IF p \in hp[2] THEN "nonnum" ELSE Vals[Pos(PeerSeq(n), p)]],
       rank |-> [c \in {"c1", "c2", "c3", "m1", "d1", "s1"} |->
                     CASE c = "c1" -> Rot(PeerSeq(n), k1) [] c = "c2" -> Rot(PeerSeq(n), k1 + k2) [] OTHER -> Rot(PeerSeq(n), k1 + 1)],
       blocks |-> << <<"d1", <<"s1">> >> >>] :
         fo \in {<<>>} \cup {<<PeerSeq(n)[i]>> : i \in {1, n}}, nr \in BOOLEAN,
-        bad \in {{}} \cup {{PeerSeq(n)[i]} : i \in {2, n}}, k1 \in 0..(n - 1), k2 \in {0, 1}} : n \in MinN..NPEERS}
+        \* health patterns <<bad, nonnum>>: all rankable; one peer without a valid metric; one peer / every peer but
+        \* p1 with a valid but non-numeric (unrankable) metric
+        hp \in {<<{}, {}>>, <<{PeerSeq(n)[2]}, {}>>, <<{PeerSeq(n)[n]}, {}>>, <<{}, {PeerSeq(n)[n]}>>,
+                <<{}, Range(PeerSeq(n)) \ {"p1"}>>}, k1 \in 0..(n - 1), k2 \in {0, 1}} : n \in MinN..NPEERS}
 
 Episodes(x) == {[kind |-> "fail", failed |-> f, at |-> ""] : f \in Members(x)}
                \cup {[kind |-> "remove", failed |-> t, at |-> p] : t \in Members(x), p \in Members(x)}
